@@ -410,7 +410,7 @@ func c03Token(mr *miniredis.Miniredis, store *redis.Redis, cfg verifh.Cfg) (func
 			if m > ninst {
 				return "bad-op"
 			}
-			var grants int32
+			res := make([]bool, m)
 			var wg sync.WaitGroup
 			start := make(chan struct{})
 			for g := 0; g < m; g++ {
@@ -418,14 +418,23 @@ func c03Token(mr *miniredis.Miniredis, store *redis.Redis, cfg verifh.Cfg) (func
 				go func(g int) {
 					defer wg.Done()
 					<-start
-					if lims[g].AllowN(time.Unix(0, ns), n) {
-						atomic.AddInt32(&grants, 1)
-					}
+					res[g] = lims[g].AllowN(time.Unix(0, ns), n)
 				}(g)
 			}
 			close(start)
 			wg.Wait()
-			return fmt.Sprintf("%d %s", grants, dump())
+			grants := 0
+			bits := ""
+			for _, ok := range res {
+				if ok {
+					grants++
+					bits += "1"
+				} else {
+					bits += "0"
+				}
+			}
+			// who wins is schedule dependent on the store path (the driver then reads only the count)
+			return fmt.Sprintf("%d %s %s", grants, bits, dump())
 		}
 		return "bad-op"
 	}
